@@ -154,6 +154,56 @@ pub fn tlf_substitutions(e: &Encoded, ti: usize) -> Vec<(Vec<u8>, &'static str)>
     v
 }
 
+/// well-formed primitive fields used to replace a whole field (TLF + data) so that everything behind it
+/// stays aligned: the grammar-aware splice that puts type / width / variant checks behind a valid checksum
+pub fn substitute_fields() -> Vec<Vec<u8>> {
+    vec![
+        vec![0x01],
+        vec![0x02, 0x41],
+        vec![0x05, 0x41, 0x42, 0x43, 0x44],
+        vec![0x80, 0x02],
+        vec![0x42, 0x00],
+        vec![0x42, 0x01],
+        vec![0x62, 0x2a],
+        vec![0x63, 0x01, 0x02],
+        vec![0x64, 0x01, 0x02, 0x03],
+        vec![0x65, 0x01, 0x02, 0x03, 0x04],
+        vec![0x66, 0x01, 0x02, 0x03, 0x04, 0x05],
+        vec![0x69, 0x01, 0x02, 0x03, 0x04, 0x05, 0x06, 0x07, 0x08],
+        vec![0x6a, 0x01, 0x02, 0x03, 0x04, 0x05, 0x06, 0x07, 0x08, 0x09],
+        vec![0x52, 0xfe],
+        vec![0x53, 0xff, 0xfe],
+        vec![0x55, 0x80, 0x00, 0x00, 0x01],
+        vec![0x59, 0xff, 0xff, 0xff, 0xff, 0xff, 0xff, 0xff, 0xfe],
+        vec![0x72, 0x62, 0x01, 0x65, 0x00, 0x00, 0x00, 0x2a],
+        vec![0x72, 0x62, 0x01, 0x62, 0x2a],
+        vec![0x72, 0x62, 0x02, 0x62, 0x2a],
+        vec![0x71, 0x01],
+        vec![0x70],
+    ]
+}
+
+/// Replace the whole primitive field at TLF index `ti` (TLF + its data bytes) by `field`.
+pub fn replace_field(e: &Encoded, ti: usize, field: &[u8], fix: bool) -> Corrupted {
+    let t = e.map.tlfs[ti];
+    let old_len = t.size + t.data_len;
+    let mut b = e.bytes.clone();
+    b.splice(t.off..t.off + old_len, field.iter().copied());
+    let mut map = e.map.clone();
+    if field.len() > old_len {
+        map.inserted(t.off + old_len, field.len() - old_len);
+    } else if field.len() < old_len {
+        map.deleted(t.off + field.len(), old_len - field.len());
+    }
+    finish(
+        b,
+        &map,
+        fix,
+        format!("field#{}({:?})@{}:={}", ti, t.role, t.off, crate::hexu::hex(field)),
+        "field-subst",
+    )
+}
+
 /// a random single corruption of an encoded file
 pub fn random_corruption(e: &Encoded, rng: &mut Rng) -> Corrupted {
     let n = e.bytes.len();
@@ -161,7 +211,17 @@ pub fn random_corruption(e: &Encoded, rng: &mut Rng) -> Corrupted {
     if n == 0 {
         return extend(e, &rng.bytes_in(1, 6));
     }
-    match rng.below(12) {
+    match rng.below(14) {
+        12 | 13 => {
+            let prim: Vec<usize> = (0..e.map.tlfs.len()).filter(|i| e.map.tlfs[*i].ty != RTy::List && e.map.tlfs[*i].role != Role::Crc).collect();
+            if prim.is_empty() {
+                return flip(e, rng.below(n), 1 << rng.below(8), fix);
+            }
+            let ti = *rng.pick(&prim);
+            let subs = substitute_fields();
+            let f = rng.pick(&subs).clone();
+            replace_field(e, ti, &f, rng.chance(4, 5))
+        }
         0 | 1 => flip(e, rng.below(n), 1 << rng.below(8), fix),
         2 => set_byte(e, rng.below(n), *rng.pick(&[0x00, 0x01, 0x62, 0x72, 0x76, 0x77, 0xff, 0x80, 0x0f]), fix),
         3 => delete(e, rng.below(n), rng.range(1, 3), fix),
